@@ -216,7 +216,15 @@ def locate_macro(repo_root, file, name):
     src = open(path, encoding='utf-8').read()
     masked = mask(src)
     o, c = find_block(src, masked, 'macro_rules! ' + name)
-    return {'body': src[o:c + 1], 'masked_body': masked[o:c + 1], 'line': src.count('\n', 0, o) + 1, 'file': file, 'sig': 'macro_rules! ' + name}
+    # the transcriber of the (single) arm: `( matcher ) => { transcriber }`
+    arrow = masked.find('=>', o, c)
+    if arrow < 0 or masked.find('=>', arrow + 2, c) >= 0 and depth_at(masked, o, masked.find('=>', arrow + 2, c)) == 1:
+        raise LostAnchor('macro %s: expected exactly one arm' % name)
+    b = masked.find('{', arrow, c)
+    e = match_brace(masked, b)
+    matcher = src[masked.find('(', o):arrow].strip()
+    return {'body': src[b:e + 1], 'masked_body': masked[b:e + 1], 'line': src.count('\n', 0, b) + 1, 'file': file,
+            'sig': 'macro_rules! %s %s' % (name, norm_ws(matcher))}
 
 
 if __name__ == '__main__':
